@@ -52,9 +52,9 @@ Definition bw_zoom_levels (fp : fpmode) (o : opts) (outs : list chrom_out) (zsiz
           do secs <- concat_res (map (fun c => zoom_sections fp (o_ips o) size (co_id c) (co_vals c)) outs);
           Ok {| zl_res := size; zl_secs := secs |}) zsizes.
 
-Definition bw_write_z (fp : fpmode) (o : opts) (sizes : list (name * N)) (input : list item) : res (list N) :=
+(* [c]: whether the blocks are compressed (the writers take it from options.compress: bw_write_z below) *)
+Definition bw_write_zc (c : bool) (fp : fpmode) (o : opts) (sizes : list (name * N)) (input : list item) : res (list N) :=
   do (ids, outs, sum, data) <- bw_collect fp o sizes input;
-  let c := o_compress o in
   do zooms <- bw_zoom_levels fp o outs (zoom_sizes_single o);
   assemble_z o BIGWIG_MAGIC sizes ids sum (map (zsec c) data) (ubuf_of c data) bw_pre 0 0 0
              (fun data_size zpos =>
@@ -62,9 +62,8 @@ Definition bw_write_z (fp : fpmode) (o : opts) (sizes : list (name * N)) (input 
                 Ok (b, h, ubuf_of c (flat_map zl_secs zooms)))
              (fun nsecs => nsecs).
 
-Definition bw_write_multipass_z (fp : fpmode) (o : opts) (sizes : list (name * N)) (input : list item) : res (list N) :=
+Definition bw_write_multipass_zc (c : bool) (fp : fpmode) (o : opts) (sizes : list (name * N)) (input : list item) : res (list N) :=
   do (ids, outs, sum, data) <- bw_collect fp o sizes input;
-  let c := o_compress o in
   let counts := total_zoom_counts outs in
   assemble_z o BIGWIG_MAGIC sizes ids sum (map (zsec c) data) (ubuf_of c data) bw_pre 0 0 0
              (fun data_size zpos =>
@@ -72,4 +71,6 @@ Definition bw_write_multipass_z (fp : fpmode) (o : opts) (sizes : list (name * N
                 do (b, h) <- write_zooms_two_pass o zpos (map (zlevel c) zooms);
                 Ok (b, h, ubuf_of c (flat_map zl_secs zooms)))
              (fun nsecs => nsecs).
+Definition bw_write_z (fp : fpmode) (o : opts) := bw_write_zc (o_compress o) fp o.
+Definition bw_write_multipass_z (fp : fpmode) (o : opts) := bw_write_multipass_zc (o_compress o) fp o.
 End Z.
